@@ -12,6 +12,6 @@ CONSTANTS
   MaxRequery = 0
   FixCommitState = TRUE
   SeqSMP = FALSE
-  FixSMPReset = FALSE
+  FixSMPReset = TRUE
 INVARIANTS EmitLong40
 CHECK_DEADLOCK FALSE
